@@ -54,7 +54,9 @@ def run(ctx):
             for k in range(int(rng.integers(1, maxops + 1))):
                 if len(x.nodes) == 0:
                     break
-                name = skelops.STRUCTURAL[int(rng.integers(len(skelops.STRUCTURAL)))]
+                # operations that rebuild parent links from scratch get extra weight
+                pool = skelops.STRUCTURAL + ['rewire', 'rewire', 'rewire', 'remove_nodes', 'reroot_seq', 'insert_nodes', 'stitch', 'via_edges2neuron']
+                name = pool[int(rng.integers(len(pool)))]
                 if f['shape'] == 'binary' and k == 0 and rng.random() < 0.6:
                     name = str(rng.choice(['prune_by_strahler', 'm_prune_by_strahler']))
                 op = skelops.OPS[name]
